@@ -365,6 +365,29 @@ let left = "cell-payload:0123456789abcdef"
         }
         if bad { std::process::exit(12); }
     }
+    if which == "sound" {
+        // C02 candidates reported by sub-agents on the unmodified tree
+        let progs = [
+            ("let-generalisation", r#"
+type Box a = | Box a
+let f x default =
+    let g z = match (if 1 #Int< 0 then Box z else x) with | Box v -> v
+    g 1
+f (Box "hello") "world"
+"#),
+            ("nested-ident-match", r#"let w = 7 in match w with | x -> match x with | y -> y"#),
+        ];
+        let mut bad = false;
+        for (name, src) in progs.iter() {
+            let vm = new_vm();
+            let t = vm.typecheck_str(name, src, None).map(|x| x.1.to_string()).map_err(|e| e.to_string().lines().take(3).collect::<Vec<_>>().join(" | "));
+            let r = std::panic::catch_unwind(std::panic::AssertUnwindSafe(|| vm.run_expr::<OpaqueValue<RootedThread, Hole>>(name, src).map(|x| format!("{:?}", x.0)).map_err(|e| e.to_string().lines().take(2).collect::<Vec<_>>().join(" | "))));
+            println!("{}: type {:?}; run {:?}", name, t, r.as_ref().map_err(|_| "HOST PANIC"));
+            if t.is_ok() && !matches!(r, Ok(Ok(_))) { bad = true; }
+            if *name == "let-generalisation" && t.as_ref().map(|s| s == "Int").unwrap_or(false) { if let Ok(Ok(v)) = &r { if v.contains("hello") { bad = true; } } }
+        }
+        if bad { std::process::exit(13); }
+    }
     if which == "lazy" {
         let src = r#"let { lazy } = import! std.lazy in lazy (\_ -> error "fail")"#;
         let (l, _) = vm.run_expr::<OpaqueValue<RootedThread, Hole>>("t", src).unwrap(); let l: L = unsafe { std::mem::transmute(l) };
